@@ -233,6 +233,8 @@ def run(ctx, chk):
     r2_precision(ctx, chk)
     r3_seeding(ctx, chk)
     C02.r3_sweep(ctx, chk, "C14.4:C02.3")
+    C02.solve_slot(ctx, chk, "C14.5", 6, ERM, "solve_total_rewards", "probabilities under minimal reward")
+    C02.solve_slot(ctx, chk, "C14.5", 7, EMR, "solve_total_rewards", "rewards under minimal reachability")
     C03.r1(ctx, chk, "C14.pre:C03.1")
     C03.r23(ctx, chk, "C14.pre:C03.2", "C14.pre:C03.3")
     C04.r2_precision(ctx, chk, "C14.pre:C04.2")
